@@ -706,6 +706,10 @@ fn replay<C: Cont>(
     let mut pre = empty.clone();
     let mut post = slot.as_ref().map_or(empty.clone(), |s| s.snap());
     emit(ctx, beh, 0, C::TY, cfg, &steps[0], &pre, &post, slot.is_none(), &o);
+    if core::str::from_utf8(&post.bytes).is_err() {
+        std::mem::forget(slot.take());
+        return;
+    }
     for (k, step) in steps.iter().enumerate().skip(1) {
         if slot.is_none() {
             break;
@@ -728,6 +732,12 @@ fn replay<C: Cont>(
         }
         post = slot.as_ref().map_or(empty.clone(), |s| s.snap());
         emit(ctx, beh, k, C::TY, cfg, step, &pre, &post, slot.is_none(), &o);
+        // The buffer no longer holds UTF-8 (recorded above; StrObs decides what that means).  Going on would hand an
+        // invalid `str` to safe code, which is undefined behaviour: this run ends here.
+        if core::str::from_utf8(&post.bytes).is_err() || o.xbytes.as_deref().is_some_and(|x| core::str::from_utf8(x).is_err()) {
+            std::mem::forget(slot.take());
+            break;
+        }
     }
 }
 
